@@ -121,6 +121,10 @@ def t_bin(op, a, b):
     if op == "div" and _num(b) and b == 1:
         return a
     za, zb_ = t_z3(a, real), t_z3(b, real)
+    if op == "mul" and za.eq(zb_) and z3.is_app(za) and za.decl().name() == "sqrt" and valid(za.arg(0) >= 0):
+        return za.arg(0)          # sqrt(t)*sqrt(t) = t for t >= 0 (defining axiom of sqrt)
+    if op == "sub" and za.eq(zb_):
+        return 0
     if op == "add":
         return za + zb_
     if op == "sub":
